@@ -121,6 +121,10 @@ DetachedBracket(anchor, new) == /\ IsTextNode(new) /\ AttachPrefixLen(new.s, 0) 
                                 /\ anchor.k = "cmd" /\ anchor # EnvHead /\ anchor.name \notin SigNames /\ NKind(anchor.args, "{") > 0
 (* G12: a command that is named like a size prefix (\left, \big, ...) takes a directly following delimiter character into  *)
 (* its name: it is only generated in front of something else                                                                *)
+(* G13: a fixed-signature command that still lacks a mandatory argument takes the next token as that argument - unless the  *)
+(* next token is a comment or a closing brace (or the input ends): only those may follow it                                *)
+MissingReq(x) == x.k = "cmd" /\ x.name \in SigNames /\ x.body = <<>>
+                 /\ Cardinality({i \in 1..Len(x.args) : ~(x.args[i].k = "group" /\ x.args[i].kind = "[")}) < Sig(x.name)[1]
 BareSizePrefix(x) == x.k = "cmd" /\ x.name \in SizePrefix /\ x.args = <<>> /\ x.body = <<>>
 DelimFirst == {d[1] : d \in Delims}
 CanFollow(fr, new) ==
@@ -137,6 +141,7 @@ CanFollow(fr, new) ==
      /\ (DollarAdjacent \/ ~(prev.k = "math" /\ prev.kind = "$" /\ nf = "$"))                                         \* G5: "$a$$..." is ambiguous; "$$a$$$b$" is not (longest match)
      /\ ~(IsTextNode(prev) /\ LoneBackslashEnd(prev.s))                                          \* a text run never ends in a lone backslash
      /\ ~(BareSizePrefix(prev) /\ nf \in DelimFirst)                                             \* G12
+     /\ ~(its # <<>> /\ MissingReq(prev) /\ ~(new.k = "text" /\ new.kind = "Com"))                \* G13
 
 TopG == gstack[Len(gstack)]
 Frame(ck, kind, name, hd) == [ck |-> ck, kind |-> kind, name |-> name, args |-> <<>>, hd |-> hd, items |-> <<>>, pre |-> <<>>]
@@ -210,6 +215,7 @@ OpenItem ==
 LastOK(fr) == IF fr.items = <<>> THEN TRUE
               ELSE /\ ~(Last(fr.items).k = "text" /\ Last(fr.items).kind = "Com")
                    /\ ~(BareSizePrefix(Last(fr.items)) /\ fr.ck \in {"group", "arg"})        \* G12: "\big}" is a sizing command
+                   /\ ~(MissingReq(Last(fr.items)) /\ ~(fr.ck = "group" \/ (fr.ck = "arg" /\ fr.kind = "{")))   \* G13: only a closing brace may follow
                    /\ ~(IsTextNode(Last(fr.items)) /\ LoneBackslashEnd(Last(fr.items).s))
 (* an item (or list) may end with a command that has no argument only if what follows is not a letter: \end / \item follow, fine *)
 Close ==
